@@ -196,7 +196,14 @@ func (r readObs) term() string {
 	return "OErr"
 }
 
-func (e *envT) get(fc *crl.FileCache, url string) string {
+func (e *envT) get(fc *crl.FileCache, url string) (res string) {
+	defer func() {
+		// a panic inside Get (e.g. unsynchronised shared state under concurrent readers) is an
+		// undecodable read for the caller
+		if p := recover(); p != nil {
+			res = "err:panic: " + Short(fmt.Sprint(p), 100)
+		}
+	}()
 	b, err := fc.Get(context.Background(), url)
 	if err != nil {
 		if errors.Is(err, corecrl.ErrCacheMiss) {
